@@ -277,13 +277,16 @@ class ColumnInfo(Immutable):
         )
 
     def to_dict(self) -> dict[str, Any]:
+        categories = self._categories
+        if isinstance(categories, frozenmapping):
+            categories = dict(categories)
         return {
             'name': self._name,
             'type': self._type,
             'unit': self._unit.serialize(),
             'scale': self._scale,
             'continuous': self._continuous,
-            'categories': self._categories,
+            'categories': categories,
             'drop': self._drop,
             'datatype': self._datatype,
             'descriptor': self._descriptor,
@@ -297,7 +300,7 @@ class ColumnInfo(Immutable):
             unit=Unit.deserialize(d['unit']),
             scale=d['scale'],
             continuous=d['continuous'],
-            categories=d['categories'],
+            categories=ColumnInfo._canonicalize_categories(d['categories']),
             drop=d['drop'],
             datatype=d['datatype'],
             descriptor=d['descriptor'],
@@ -945,7 +948,11 @@ class DataInfo(Sequence, Immutable):
                 "type": col.type,
                 "scale": col.scale,
                 "continuous": col.continuous,
-                "categories": col.categories,
+                "categories": (
+                    dict(col.categories)
+                    if isinstance(col.categories, frozenmapping)
+                    else col.categories
+                ),
                 "unit": str(col.unit),
                 "datatype": col.datatype,
                 "drop": col.drop,
